@@ -92,15 +92,15 @@ Proof.
   unfold ref_handle_frame, reply_of. pose proof (decode_head (f_pdu fr)) as Hh.
   destruct (decode (f_pdu fr)) as [|fc|fc|fc r]; [left; reflexivity| | |].
   - destruct Hh as [body Hb]. destruct (f_dest fr) as [u|]; [|left; reflexivity].
-    destruct (lookup u units); [|left; reflexivity]. right. exists fc, body, (exception_pdu fc 1). repeat split; [assumption|constructor].
+    destruct (lookup u (u_map units)); [|left; reflexivity]. right. exists fc, body, (exception_pdu fc 1). repeat split; [assumption|constructor].
   - destruct Hh as [body Hb]. destruct (f_dest fr) as [u|]; [|left; reflexivity].
-    destruct (lookup u units); [|left; reflexivity]. right. exists fc, body, (exception_pdu fc 3). repeat split; [assumption|constructor].
+    destruct (lookup u (u_map units)); [|left; reflexivity]. right. exists fc, body, (exception_pdu fc 3). repeat split; [assumption|constructor].
   - destruct Hh as [body Hb]. destruct (authorize a (dest_value (f_dest fr)) r) as [ok alog]. destruct ok; cbn [negb].
     + destruct (f_dest fr) as [u|].
-      * destruct (lookup u units) as [st|]; [|left; reflexivity].
-        pose proof (ref_exec_shape fc u st r) as Sh. destruct (ref_exec H fc u st r) as [[st' pdu] lg]. cbn [fst snd] in *.
+      * destruct (lookup u (u_map units)) as [h|]; [|left; reflexivity].
+        pose proof (ref_exec_shape fc h (u_store units h) r) as Sh. destruct (ref_exec H fc h (u_store units h) r) as [[st' pdu] lg]. cbn [fst snd] in *.
         right. exists fc, body, pdu. repeat split; assumption.
-      * left. destruct (is_write r); [destruct (apply_all H units r)|]; reflexivity.
+      * left. destruct (is_write r); [destruct (apply_all H (u_map units) (u_store units) r)|]; reflexivity.
     + destruct (dest_is_broadcast (f_dest fr)); [left; reflexivity|].
       right. exists fc, body, (exception_pdu fc 1). repeat split; [assumption|constructor].
 Qed.
@@ -173,7 +173,7 @@ Proof. intros Hok Hs. rewrite !handle_frame_refines by assumption. rewrite (ref_
 
 (* the carve-out C01 mentions: the veto comes before the unit lookup *)
 Theorem deny_unconfigured p role l units fr fc r u : frame_ok l fr -> decode (f_pdu fr) = Valid fc r ->
-  f_dest fr = DUnit u -> lookup u units = None -> p (kind_of r) u (arg_of r) role = false ->
+  f_dest fr = DUnit u -> lookup u (u_map units) = None -> p (kind_of r) u (arg_of r) role = false ->
   reply_of (handle_frame H l (AuthHandler p role) units fr) = Ok (adu l (f_tx fr) u (exception_pdu fc 1)).
 Proof.
   intros Hok Hd Ed _ Hp. pose proof (deny p role l units fr fc r Hok Hd) as D. rewrite Ed in D. cbn [dest_value dest_is_broadcast] in D.
@@ -182,7 +182,7 @@ Qed.
 
 (* C17 *)
 Theorem silent l units fr : frame_ok l fr -> reply_of (handle_frame H l NoAuth units fr) <> Ok [] ->
-  exists u, f_dest fr = DUnit u /\ lookup u units <> None.
+  exists u, f_dest fr = DUnit u /\ lookup u (u_map units) <> None.
 Proof.
   intros Hok. rewrite handle_frame_refines by assumption. rewrite lift3_reply. intros E. apply (ref_silent H l units fr).
   intros E2. apply E. rewrite E2. reflexivity.
@@ -194,8 +194,8 @@ Proof. intros Hok Ed. rewrite handle_frame_refines by assumption. rewrite lift3_
 
 Theorem broadcast_write l units fr fc r : frame_ok l fr -> f_dest fr = DBroadcast -> decode (f_pdu fr) = Valid fc r -> is_write r = true ->
   let x := handle_frame H l NoAuth units fr in
-  reply_of x = Ok [] /\ log_of x = flat_map (fun us => write_call (fst us) r) units /\
-  units_of x = map (fun us => (fst us, fst (apply_write H (snd us) r))) units.
+  reply_of x = Ok [] /\ log_of x = flat_map (fun uh => write_call (snd uh) r) (u_map units) /\
+  units_of x = with_store units (broadcast_store H r (u_map units) (u_store units)).
 Proof.
   intros Hok Ed Hd W. cbv zeta. rewrite handle_frame_refines by assumption. rewrite lift3_log, lift3_units, lift3_reply.
   destruct (ref_broadcast_write H l units fr fc r Ed Hd W) as (A & B & C). rewrite A, B, C. auto.
@@ -209,8 +209,19 @@ Proof.
   destruct (ref_broadcast_other H l units fr Ed Hd) as (A & B & C). rewrite A, B, C. auto.
 Qed.
 
+Theorem unit_effect l units fr fc r u h : frame_ok l fr -> f_dest fr = DUnit u -> lookup u (u_map units) = Some h ->
+  decode (f_pdu fr) = Valid fc r ->
+  let x := handle_frame H l NoAuth units fr in
+  u_map (units_of x) = u_map units /\
+  u_store (units_of x) h = fst (fst (ref_exec H fc h (u_store units h) r)) /\
+  (forall k, k <> h -> u_store (units_of x) k = u_store units k).
+Proof.
+  intros Hok Ed Lk Hd. cbv zeta. rewrite handle_frame_refines by assumption. rewrite lift3_units.
+  exact (ref_unit_effect H l units fr fc r u h Ed Lk Hd).
+Qed.
+
 Theorem silent_session l units frames : Forall (frame_ok l) frames ->
-  Forall2 (fun fr reply => reply <> [] -> exists u, f_dest fr = DUnit u /\ In u (map fst units))
+  Forall2 (fun fr reply => reply <> [] -> exists u, f_dest fr = DUnit u /\ In u (map fst (u_map units)))
           frames (fst (fst (fst (session H l NoAuth units frames)))).
 Proof.
   intros Hok. rewrite session_refines by assumption. pose proof (ref_silent_session H l frames units) as S. unfold reply_of in S.
